@@ -180,13 +180,13 @@ let kobs_line (g : skreg) (s : M.sketch) side : string =
 (* ---------- reference decoder cross-checks (C07): implementation bytes read by the documentation-only decoder ---------- *)
 let bins_line (b : (M.z * M.w) list) = bins_str b
 let ref_check_store (bytes : string) (neg : bool) (s : M.store) : string =
-  match M.ref_decode (bytes_of_string bytes) with
+  match M.ref_decode_raw (bytes_of_string bytes) with
   | None -> " REF-DECODE-FAILS"
   | Some c ->
     let got = if neg then c.M.c_neg else c.M.c_pos and other = if neg then c.M.c_pos else c.M.c_neg in
     if bins_line got = bins_line (M.st_abs s) && other = [] then "" else " REF-DECODE-DIFFERS store[" ^ bins_line got ^ "]"
 let ref_check_sketch (bytes : string) (omit : bool) (s : M.sketch) : string =
-  match M.ref_decode (bytes_of_string bytes) with
+  match M.ref_decode_raw (bytes_of_string bytes) with
   | None -> " REF-DECODE-FAILS"
   | Some c ->
     let pb = ref [] in
@@ -249,6 +249,30 @@ let map_diff (m : M.gmap) side : string =
 let mapid_of (m : M.gmap) : M.mapid =
   { M.mk_kind = n_of (Z.of_int (match m.M.gm_kind with M.MLog -> 0 | M.MLin -> 1 | M.MCub -> 3)); M.mk_gamma = m.M.gm_gamma; M.mk_off = m.M.gm_off }
 
+(* guard: bytes whose documented meaning has indexes outside the int32 range (or a span no dense array / page table
+   could hold) come from a misbehaving implementation; the model does not follow it there *)
+let bytes_sane (bytes : string) : bool =
+  match M.ref_decode_raw (bytes_of_string bytes) with
+  | None -> true
+  | Some c ->
+    let ok l = (match l with
+        | [] -> true
+        | _ -> let ks = List.map (fun (k, _) -> to_z k) l in
+          let mn = List.fold_left Z.min (List.hd ks) ks and mx = List.fold_left Z.max (List.hd ks) ks in
+          Z.leq (Z.of_string "-2147483648") mn && Z.leq mx (Z.of_string "2147483647")) in
+    ok c.M.c_pos && ok c.M.c_neg
+let span_ok (bytes : string) (dense_target : bool) : bool =
+  if not dense_target then true else
+  match M.ref_decode_raw (bytes_of_string bytes) with
+  | None -> true
+  | Some c ->
+    let ok l = (match l with
+        | [] -> true
+        | _ -> let ks = List.map (fun (k, _) -> to_z k) l in
+          let mn = List.fold_left Z.min (List.hd ks) ks and mx = List.fold_left Z.max (List.hd ks) ks in
+          Z.leq (Z.sub mx mn) (Z.of_int 4000000)) in
+    ok c.M.c_pos && ok c.M.c_neg
+
 let exec (toks : string list) (side : string list) (impl_result : string) : string =
   match toks with
   (* ----- stores ----- *)
@@ -301,6 +325,7 @@ let exec (toks : string list) (side : string list) (impl_result : string) : stri
     Hashtbl.replace bytesr b ib; "ok" ^ ref_check_store (strip_prefix ib rest) (pn <> "pos") s'
   | ["dec"; r; b] ->
     let bs = get_bytes b in
+    if not (bytes_sane bs && span_ok bs (match get_store r with M.SS _ -> false | _ -> true)) then raise Unsupported else
     (match M.dec_store_all (nat_of_int (String.length bs + 1)) (get_store r) (bytes_of_string bs) with
      | M.DOk (s', _) -> Hashtbl.replace stores r (Some s'); "ok"
      | M.DErr e -> Hashtbl.replace stores r None; "err " ^ err_name e
@@ -375,6 +400,7 @@ let exec (toks : string list) (side : string list) (impl_result : string) : stri
     let m0 = if mp = "nil" then None else
         (match Hashtbl.find_opt specs mp with Some (m, _, _) -> Some m | None -> raise Unsupported) in
     let bs = get_bytes b in
+    if not (bytes_sane bs && span_ok bs (kind <> "sparse")) then raise Unsupported else
     (match M.xk_dec_into (M.ds_fresh m0 (parse_kind kind) exact) (bytes_of_string bs) with
      | M.DOk (d, _) ->
        (match M.sketch_of_ds d, side_map side with
@@ -388,6 +414,7 @@ let exec (toks : string list) (side : string list) (impl_result : string) : stri
      | M.DPanic -> Hashtbl.remove sketches k; "panic")
   | ["kdecinto"; k; b] ->
     let (g, s) = get_sk k in
+    if not (bytes_sane (get_bytes b) && span_ok (get_bytes b) true) then raise Unsupported else
     (match M.xk_dec_into (M.ds_of_sketch s) (bytes_of_string (get_bytes b)) with
      | M.DOk (d, _) ->
        (match M.sketch_of_ds d with
